@@ -364,6 +364,9 @@ class Ctx:
                 return
         if any(f["key"] == key for f in self.failures):
             return
+        if len(self.failures) >= 6:
+            self.extra["further_failures_not_listed"] = self.extra.get("further_failures_not_listed", 0) + 1
+            return
         self.failures.append({"key": key, "what": what, "replay": replay, "witness": witness})
 
     def finish(self):
